@@ -280,6 +280,7 @@ def expected_tree(entries, opts, filters, pre, answers):
             tree[k] = d
     root = "d755,NOW" if touched_root else "d755,1000"
     items = [("/6f757473696465", "d755,1000"), ("/6f757473696465/63616e617279", "f644,1000,6,%04x" % E.crc16(b"canary")),
+             ("/6f757473696465/737562", "d700,1000"),
              ("/726f6f74", root)] + list(tree.items())
     items.sort(key=lambda x: x[0])
     return ";".join(k + "=" + v for k, v in items), aborted
@@ -352,6 +353,10 @@ def gen_cases(ctx, n):
             opts = ["f", "i"] if uniq_names(ents) else ["f"]
         elif k < 0.5:
             opts = ["f", "w" + r.choice([b"sub", b"sub/deeper", b"x.d"]).hex()]
+            if r.random() < 0.35 and uniq_names(ents):
+                opts.insert(1, "i")          # flatten INTO a relocation directory that does not exist yet
+            if r.random() < 0.3:
+                opts[0] = r.choice(["q", "q1", "q2"])
         elif k < 0.6:
             opts = ["f", "v"]
         elif k < 0.75:
